@@ -12,6 +12,8 @@ Part A (object model, spec/ObjModel.tla):
         generated as spec-level JSON; the spec cuts them at the first operation it does not allow.
 Part B (call form x function kind, spec/C08.tla): TLC enumerates the product, the driver renders and runs each
   cell, TLC judges this / arguments / length / name / new-return against the table in the specification.
+Part C (kind of the this-value x explicit-this call form x function kind, spec/C08.tla): same pipeline as Part B
+  (quick: representative sub-grid containing every this-value kind, call form and function kind; thorough: the product).
 Python never computes an expected value.
 """
 import json, os, random, collections, time
@@ -287,7 +289,7 @@ def part_callforms(rep):
     recs = [{"id": r["id"], "cell": {k: v for k, v in byid[r["id"]].items() if k != "id"}, "obs": r["obs"], "dv": dv}
             for r in results]
     verdicts, st, tr, wall = tlc_judge(pid, "C08", recs, CALL_JUDGE_CFG, tag="calljudge",
-                                         shards=min(16, max(2, len(recs) // 100)))
+                                         shards=min(16, max(2, len(recs) // 250)))
     rep.add_judge(len(recs), st, tr)
     if len(verdicts) != len(recs):
         raise Machinery("call-form judge returned %d verdicts for %d cells" % (len(verdicts), len(recs)))
